@@ -14,7 +14,7 @@ namespace sc = sim::sched;
 namespace c18 {
 Outcome scen_objfn(const sim::Plan& p, int threads, const sc::Params& sp) { return scen_objfn_impl(p, threads, sp); }
 Outcome scen_norm(const sim::Plan& p, int threads, const sc::Params& sp) { return scen_norm_impl(p, threads, sp); }
-Outcome scen_scatter(const sim::Plan& p, int threads, const sc::Params& sp) { return scen_forward(p, threads, sp); }
+Outcome scen_scatter(const sim::Plan& p, int threads, const sc::Params& sp) { return scen_scatter_impl(p, threads, sp); }
 }
 namespace {
 
@@ -30,6 +30,7 @@ gen(uint64_t seed, const std::string& tier, long idx)
   o.kind = scen[idx % (sizeof scen / sizeof *scen)];
   p.ops.push_back(o);
   c18::gen_config(p, r, thorough);
+  p.cfg["scat_small"] = 1; // the scatter scenario of C18 stays small (C16 runs the larger ones)
   return p;
 }
 
